@@ -37,10 +37,16 @@ _memo = {}
 
 
 def find_input(pid, verdict, repo, env, seed):
-    if pid not in _memo:
-        _memo[pid] = _run(pid, repo, env, seed)
-    found, out = _memo[pid]
-    found = dict(found) if found else None
+    # the search of the property itself first, then those of the other properties the failed clause serves
+    order = [pid] + [p for p in (verdict.get("props") or []) if p != pid and p != "*"]
+    found = None
+    for p in order:
+        if p not in _memo:
+            _memo[p] = _run(p, repo, env, seed)
+        f, out = _memo[p]
+        if f:
+            found = dict(f)
+            break
     if found:
         found["how"] = "bounded-search"
         found["cmd"] = "go test -overlay <props/replay_harness_test.go.txt> -run TestVerifReplay ./spdxexp (VERIF_REPLAY_PROP=%s)" % pid
